@@ -329,6 +329,12 @@ enc_case(int k, int e, size_t len, size_t consumed, size_t extra, size_t freesp,
         unsigned char *expect = malloc(len + 1);
         size_t nch = 2 + (consumed % 4), active = extra % 2, o = 0;
         size_t remaining = len;
+        /* every second list has its chunks carved from one block, each starting exactly where its predecessor
+         * ends (a header and a body in one buffer); the others live in separate blocks */
+        const int one_block = (int)((len + consumed + freesp) & 1);
+        unsigned char *blockp = one_block ? vh_arena(len + 3 * 6 + 6) : NULL;
+        if (one_block)
+            VH_COUNT("encoder: chunk list carved from one block (adjacent chunks)");
         for (size_t i = 0; i < nch; i++) {
             size_t part;
             if (i < active)
@@ -341,7 +347,13 @@ enc_case(int k, int e, size_t len, size_t consumed, size_t extra, size_t freesp,
                 part = remaining / (nch - i);
             size_t lead = (i + consumed) % 3; /* consumed octets in front of the unread part */
             size_t msz = lead + part ? lead + part : 1;
-            unsigned char *m = vh_arena(msz);
+            unsigned char *m;
+            if (one_block) {
+                m = blockp;
+                blockp += lead + part; /* an empty chunk (size 1, nothing used) shares its octet with its successor */
+            } else {
+                m = vh_arena(msz);
+            }
             fill(m, msz, (unsigned)(10 + i));
             byte_buffer_set(&chunk[i], m, msz, lead + part, lead);
             if (i >= active) {
@@ -851,6 +863,7 @@ harness_run(void)
         vh_unit("tunnel", i, u_tunnel, NULL);
     vh_require("encoder writing into a sink that frames what it receives (nested encoder calls)");
     vh_require("call through a lenp_* wrapper");
+    vh_require("encoder: chunk list carved from one block (adjacent chunks)");
     vh_require("decoder: source exposing a transfer window");
     static const char *req[] = { "encoder: frame emitted to sink", "encoder: prefix object filled",
                                  "encoder: length beyond the kind's maximum refused",
